@@ -145,6 +145,9 @@ type File struct {
 	Templates []Template `json:"templates"`        // Templates[0] is the entry point; the others are sub<N> callees
 	Extras    []Extra    `json:"extras,omitempty"` // extra top-level declarations placed between templates
 	CRLF      bool       `json:"crlf,omitempty"`
+	// Latin1: the static text of text nodes is written in ISO-8859-1 (é is the single byte 0xE9),
+	// as a file saved by an editor set to a legacy encoding holds it. Go expressions stay UTF-8.
+	Latin1 bool `json:"latin1,omitempty"`
 }
 
 // Extra top-level declaration: "go" (Text = Go source), "css" (Name, Props), "script" (Name, Text = JS body).
